@@ -6,6 +6,7 @@ import (
 	"verif/vlib"
 
 	_ "verif/echecks/interp"
+	_ "verif/echecks/jobsconc"
 	_ "verif/echecks/npipes"
 	_ "verif/echecks/pipes"
 )
